@@ -88,7 +88,7 @@ Proof.
     now rewrite (sdp_step_other _ c Hnr).
   - unfold set_subs. cbn [g_subs]. rewrite find_map_id by (intro; apply play_step_id). rewrite Hfind. cbn [option_map].
     now rewrite (play_step_other _ _ c Hnr).
-  - unfold feed_rtp. cbn [g_subs]. destruct (rtp_pt raw) as [pt|]; [|exact Hfind].
+  - unfold feed_rtp, feed_rtp_gen. cbn [g_subs]. destruct (rtp_pt raw) as [pt|]; [|exact Hfind].
     rewrite find_map_id by (intro; apply rtsp_step_id). rewrite Hfind. cbn [option_map].
     now rewrite (rtsp_step_other _ _ _ _ c Hnr).
   - destruct Hstay.
@@ -392,7 +392,7 @@ Proof.
   - split5; assumption.
   - split5; assumption.
   - unfold set_subs. split5; assumption.
-  - unfold feed_rtp. split5; assumption.
+  - unfold feed_rtp, feed_rtp_gen. split5; assumption.
   - split5; try assumption; try reflexivity. cbn [g_ts_cache tp_gops]. eapply ring_inv_clear; eassumption.
 Qed.
 
